@@ -473,6 +473,10 @@ def stage_r_makesem(rep, rng, n):
         rep.sample({'stage': 'R:makesem', 'rules [target, prereqs, order-only, recipe, phony]': calls[0][1][0],
                     'fs': calls[0][1][1], 'ops': calls[0][1][3], 'make': real[0]})
 
+        # the generated graphs satisfy the well-formedness hypothesis of the MakeSem theorems
+        for r in common.model_batch([('makesem.wfb', [c[1][0]]) for c in calls]):
+            rep.count('ms:wfb-true' if d_bool(r) else 'ms:wfb-false')
+
         def decs(name, r):
             return [[x[0], (x[1][0] if x[1] else None)] for x in r]
         dis = common.compare_model(rep, 'R:makesem', calls, real, decs, vm_limit=10)
